@@ -168,16 +168,28 @@ def _coerce_scalar(name, lit):
 
 
 def custom_scalar_value(impl, lit):
-    """Custom scalars: only string literals are used by the generators.
+    """Custom scalars.
 
-    impl None   -- transparent scalar (the value of the string literal is the value)
-    impl "date" -- the scalar supplied through additional_types / code: value ("date", text)
+    impl None    -- the scalar build_schema makes for `scalar X` (and the plain code route's stand-in): the value of
+                    a String literal is that string, of an Int / Float literal the literal's TEXT (the library keeps
+                    node.value), of a Boolean literal the bool
+    impl "typed" -- code-built pass-through scalar holding Python int / float / bool / str values; its external
+                    (printed and rebuilt) form is the impl None reading of the same literal
+    impl "date"  -- the scalar supplied through additional_types / code: value ("date", text), strings only
     """
-    if lit[0] != "str":
-        raise Reject("custom scalar literal kinds other than String are outside the model")
     if impl == "date":
+        if lit[0] != "str":
+            raise Reject("Date literals other than String are outside the model")
         return ("date", lit[1])
-    return lit[1]
+    if lit[0] == "str":
+        return lit[1]
+    if lit[0] == "bool":
+        return bool(lit[1])
+    if lit[0] == "int":
+        return int(lit[1]) if impl == "typed" else lit[1]
+    if lit[0] == "float":
+        return float(lit[1]) if impl == "typed" else lit[1]
+    raise Reject("custom scalar literal kind %s is outside the model" % lit[0])
 
 
 def coerce_literal(env, t, lit):
